@@ -595,9 +595,9 @@ def fam_faults(rng, thorough=False):
         for j in range(24):
             steps.append(feed(0, "valid", t.next(), peer=1))
             steps.append({"op": "sleep", "ms": idle // 4})
-            if j == 4:
+            if j == 1:      # early: a close caused by the stall would come long before 4 idle timeouts have passed
                 steps.append({"op": "consumer", "run": False})
-            if j == 10:
+            if j == 7:
                 steps.append({"op": "consumer", "run": True})
         steps.append({"op": "quiesce", "ms": 150})
         out.append({"name": "faults/active_with_stalled_consumer_%s" % kind,
